@@ -133,7 +133,23 @@ def impl(case):
         txt = os.path.join(d, 'pars.txt')
         write_parameters(out, txt, select_format=('N', 1))
         lines = [l.split() for l in open(txt).read().split('\n')[3:] if l.strip()][2 * len(decoys):]
-    return dict(rec=dict(model_name=rec['model_name'][:3], av=rec['av'][:3], sc=rec['sc'][:3], chi2=rec['chi2'][:3]), listing=lines[:2], d0=d0, ks=[float(x) for x in ks],
+        # the object interface, with ONE Source object: first fitted with other photometry (the planted one shifted by a dex in one band),
+        # then its arrays are updated in place to the planted photometry and it is fitted again
+        from sedfitter.fit import Fitter
+        from sedfitter.source import Source
+        fitter = Fitter(names, np.array(theta) * u.arcsec, d, extinction_law=ext, av_range=tuple(case['av_range']), distance_range=drange)
+        planted = Source.from_ascii(' '.join(cols))
+        obj = Source.from_ascii(' '.join(cols))
+        if case['flag'] == 1:
+            obj.flux[0] = obj.flux[0] * 10.0
+            obj.error[0] = obj.error[0] * 10.0
+        else:
+            obj.flux[0] = obj.flux[0] + 1.0
+        fitter.fit(obj)
+        obj.flux[:] = planted.flux
+        obj.error[:] = planted.error
+        rec2 = fitcase.info_out(fitter.fit(obj))
+    return dict(rec_inplace=dict(model_name=rec2['model_name'][:1], av=rec2['av'][:1], sc=rec2['sc'][:1], chi2=rec2['chi2'][:1]), rec=dict(model_name=rec['model_name'][:3], av=rec['av'][:3], sc=rec['sc'][:3], chi2=rec['chi2'][:3]), listing=lines[:2], d0=d0, ks=[float(x) for x in ks],
                 data=cols, filtwav=[conv[n]['filtwav'] for n in names], conv={n: conv[n] for n in names}, grid=grid)
 
 
@@ -261,6 +277,12 @@ def judge(case, im, mo):
                         break
                 if fail:
                     break
+    # ---- the same source object fitted before with other photometry and then updated in place
+    r2 = im.get('rec_inplace')
+    if r2 and rec['model_name'][0] == case['planted']:
+        if r2['model_name'][0] != rec['model_name'][0] or abs(r2['av'][0] - rec['av'][0]) > tol_av or abs(r2['sc'][0] - rec['sc'][0]) > tol_sc or abs(r2['chi2'][0] - rec['chi2'][0]) > chi_tol:
+            fail.append('inplace: a Source object fitted before with other photometry and then updated in place gives %s (A_V %r, scale %r, chi2 %r); the planted source read from the file gives %s (%r, %r, %r)'
+                        % (r2['model_name'][0], r2['av'][0], r2['sc'][0], r2['chi2'][0], rec['model_name'][0], rec['av'][0], rec['sc'][0], rec['chi2'][0]))
     # ---- property
     if rec['model_name'][0] != case['planted']:
         fail.append('first: model %s is ranked first, %s was planted' % (rec['model_name'][0], case['planted']))
